@@ -139,6 +139,7 @@ pub fn sm_fold(prev: u64, index: u64, dig: u64) -> u64 {
 
 thread_local! {
     pub static LAST_PANIC: RefCell<Option<(String, String)>> = const { RefCell::new(None) };
+    pub static IN_GUARD: std::cell::Cell<bool> = const { std::cell::Cell::new(false) };
 }
 
 pub fn install_panic_hook() {
@@ -154,7 +155,7 @@ pub fn install_panic_hook() {
             .location()
             .map(|l| format!("{}:{}", l.file(), l.line()))
             .unwrap_or_default();
-        if std::env::var("RMC_PANIC_VERBOSE").is_ok() {
+        if std::env::var("RMC_PANIC_VERBOSE").is_ok() || !IN_GUARD.with(|g| g.get()) {
             eprintln!("panic: {} @ {}", msg, loc);
         }
         LAST_PANIC.with(|p| *p.borrow_mut() = Some((msg, loc)));
@@ -169,7 +170,10 @@ pub fn take_panic() -> (String, String) {
 
 /// Runs `f`, converting a panic into Err((message, location)).
 pub fn guarded<R>(f: impl FnOnce() -> R) -> Result<R, (String, String)> {
-    match std::panic::catch_unwind(std::panic::AssertUnwindSafe(f)) {
+    let was = IN_GUARD.with(|g| g.replace(true));
+    let r = std::panic::catch_unwind(std::panic::AssertUnwindSafe(f));
+    IN_GUARD.with(|g| g.set(was));
+    match r {
         Ok(r) => Ok(r),
         Err(_) => Err(take_panic()),
     }
